@@ -160,7 +160,7 @@ def canary_rows():
         t(c1, 4, 300000, 3300000, 3300010, "discard", 777, ""),          # discard-not-marked (tag)
         t(c1, 5, 400000, 100000, 399999, "fire"),                        # fired-early (1 us)
         t(c1, 6, 500000, 500000, 500010, "both"),                        # shot-and-discarded
-        {"ev": "end", "run": c1, "end": 9000000, "left": 0, "drawn": 7, "err": "", "timeout": False, "last": 500000, "orphans": 0},
+        {"ev": "end", "run": c1, "end": 19000000, "left": 0, "drawn": 7, "err": "", "timeout": False, "last": 500000, "orphans": 0},
         {"ev": "run", "run": c2, "kind": "canary", "key": "absent", "got": False, "ninst": 1, "desc": "canary off"},
         t(c2, 1, 100000, 3100000, 3100010, "discard", 777, "discarded"), # discarded-while-off
         t(c2, 2, 100000, 3100000, 3100010, "fire"),                      # fine: late but discard is off
